@@ -1,7 +1,7 @@
 (* C02 - compile-time constant arithmetic is exact and matches the Go specification.
    Only statements, `exact`, and Print Assumptions live here. *)
 From Coq Require Import ZArith List Bool QArith.
-From Verif Require Import Facts_consts ConstsM Consts_proofs Consts_proofs2 Consts_proofs3.
+From Verif Require Import Facts_consts ConstsM ConstEvalM Consts_proofs Consts_proofs2 Consts_proofs3 Consts_proofs4.
 Open Scope Z_scope.
 
 (* ---- the full statement, over the model of constant.go: every arithmetic
@@ -278,6 +278,21 @@ Theorem C02_f64_shortcuts : forall x y,
   (fl_is_zero y = true -> bin_f64 ODiv x y = Err EDiv0).
 Proof. exact f64_shortcuts. Qed.
 Print Assumptions C02_f64_shortcuts.
+
+(* ---- the checker glue: < <= > >= are rejected on complex types whatever
+   the representation class of the constants is (complex128(1) < 2 was
+   accepted before fix 01e9b06); the kinds are those after the implicit
+   conversion of the untyped operand to the type of the typed one *)
+Theorem C02_ordered_cmp_complex : forall o t1 t2, is_ordered_op o = true ->
+  is_complex_kind (eff_kind1 t1 t2) || is_complex_kind (eff_kind2 t1 t2) = true ->
+  exists e, check_binary o t1 t2 = EErr e.
+Proof. exact ordered_cmp_complex_rejected. Qed.
+Print Assumptions C02_ordered_cmp_complex.
+
+Example C02_example_ordered_cmp_complex :
+  check_binary OLt {| ti_kind := KComplex128; ti_untyped := false; ti_c := Num (F64 (FFin false 1 0)) |}
+                   {| ti_kind := KInt; ti_untyped := true; ti_c := Num (I64 2) |} = EErr CInvalidOp.
+Proof. exact ordered_cmp_complex_example. Qed.
 
 (* ---- strings and booleans *)
 Theorem C02_str_ops : forall a b,
